@@ -1,6 +1,7 @@
 package main
 
 import (
+	"slices"
 	"context"
 	"crypto/x509"
 	"encoding/pem"
@@ -174,7 +175,13 @@ func newC35Session(r *mon.Run, w *c35World, initial []int, hist *c35Hist) *c35Se
 	s := &c35Session{r: r, w: w, model: map[int]bool{}, hist: hist}
 	s.db = &c35DB{DB: newTrustDB()}
 	s.f = &c35Fetcher{w: w}
-	for _, ser := range initial {
+	// The store is filled the way LoadTRCs fills it from a directory: in no
+	// particular serial order (odd cases: descending).
+	order := append([]int{}, initial...)
+	if hist.Case%2 == 1 {
+		slices.Reverse(order)
+	}
+	for _, ser := range order {
 		if _, err := s.db.DB.InsertTRC(context.Background(), w.genuine[ser].Signed); err != nil {
 			panic("pkitrust: c35 initial insert: " + err.Error())
 		}
@@ -183,12 +190,40 @@ func newC35Session(r *mon.Run, w *c35World, initial []int, hist *c35Hist) *c35Se
 			s.latest = ser
 		}
 	}
+	s.checkLatest("initial-fill")
 	s.prov = trust.FetchingProvider{DB: s.db, Recurser: trust.LocalOnlyRecurser{}, Fetcher: s.f,
 		Router: trust.LocalRouter{IA: addr.MustIAFrom(c35ISD, 0xff00_0000_0101)}}
 	return s
 }
 
 func (s *c35Session) close() { s.db.DB.Close() }
+
+// checkLatest: the latest stored TRC is the one with the highest serial the
+// model holds, whatever the order of insertion was.
+func (s *c35Session) checkLatest(when string) {
+	lt, lerr := s.db.DB.SignedTRC(context.Background(),
+		cppki.TRCID{ISD: c35ISD, Base: scrypto.LatestVer, Serial: scrypto.LatestVer})
+	s.r.Eval(1)
+	s.r.Event("latest_checked")
+	if lerr != nil || int(lt.TRC.ID.Serial) != s.latest || lt.TRC.ID.Base != 1 {
+		s.viol("C35:latest-regressed/"+when, fmt.Sprintf("latest is %v (err %v), highest stored serial is S%d", lt.TRC.ID, lerr, s.latest))
+	}
+}
+
+// lateInsert stores a genuine older TRC that the store lacks (trust material
+// loaded from disk after newer TRCs were fetched); the latest TRC must not move.
+func (s *c35Session) lateInsert(ser int) {
+	if s.dead || s.model[ser] || ser >= s.latest {
+		return
+	}
+	if _, err := s.db.DB.InsertTRC(context.Background(), s.w.genuine[ser].Signed); err != nil {
+		panic("pkitrust: c35 late insert: " + err.Error())
+	}
+	s.model[ser] = true
+	s.hist.Steps = append(s.hist.Steps, c35Step{Notify: fmt.Sprintf("(direct insert of S%d)", ser), Kind: "late-insert"})
+	s.r.Class(s.hist.Phase + "/late-insert")
+	s.checkLatest("late-insert")
+}
 
 // viol reports a violation and ends the session: after a divergence the model
 // and the store no longer correspond and later steps would only echo it.
@@ -381,6 +416,9 @@ func runC35Load(r *mon.Run, pool *gen.Pool, rng *rand.Rand, idx int, edge bool) 
 	for k := 0; k < nISD; k++ {
 		isd := gen.NewISD(dr.Take(6), 10+k, 2, 2, 2, 2, tgen.Add(-30*24*hour), tgen.Add(30*24*hour))
 		depth := 1 + rng.IntN(3)
+		if rng.IntN(4) == 0 {
+			depth = 10 + rng.IntN(3) // file-name order differs from serial order (S10 before S2)
+		}
 		var prev gen.TRC
 		for s := 1; s <= depth; s++ {
 			off := pick(rng, offs)
@@ -471,6 +509,25 @@ func runC35Load(r *mon.Run, pool *gen.Pool, rng *rand.Rand, idx int, edge bool) 
 			fmt.Printf("PREMISE c35 load: %s (%s) not loaded: err=%v ignored=%v\n", f.Name, f.NBOff, err, res.Ignored)
 		}
 	}
+	// latest per ISD = highest serial among the loaded ones
+	best := map[addr.ISD]cppki.TRCID{}
+	for _, f := range files {
+		if f.InDB && f.id.Serial > best[f.id.ISD].Serial {
+			best[f.id.ISD] = f.id
+		}
+	}
+	for isd, want := range best {
+		lt, lerr := d.SignedTRC(ctx, cppki.TRCID{ISD: isd, Base: scrypto.LatestVer, Serial: scrypto.LatestVer})
+		r.Eval(1)
+		r.Event("load_latest_checked")
+		if want.Serial >= 10 {
+			r.Class("load/latest/serial>=10")
+		}
+		if lerr != nil || lt.TRC.ID != want {
+			r.Violation("C35:latest-regressed/load", fmt.Sprintf("after %s the latest TRC of ISD %d is %v (err %v), highest loaded is %v",
+				via, isd, lt.TRC.ID, lerr, want), wit)
+		}
+	}
 	if r.WantSample() && idx%7 == 1 {
 		r.Sample(map[string]any{"part": "load", "case": wit})
 	}
@@ -496,7 +553,7 @@ func checkC35(r *mon.Run) {
 
 	// ---- phase 1: fault enumeration for distances 1..4 ----
 	caseNo := 0
-	initials := [][]int{{1}, {1, 2}, {1, 2, 3}, {2}, {1, 2, 3, 4}}
+	initials := [][]int{{1}, {1, 2}, {1, 2, 3}, {2}, {1, 2, 3, 4}, {3}, {1, 3}}
 	perSubset := r.Pick(1, 3) // how many different initial stores per (d, subset, kind)
 	for d := 1; d <= 4; d++ {
 		for mask := 0; mask < 1<<d; mask++ {
@@ -552,6 +609,9 @@ func checkC35(r *mon.Run) {
 			l := s.latest
 			var id cppki.TRCID
 			var kind string
+			if rng.IntN(5) == 0 && l > 1 {
+				s.lateInsert(1 + rng.IntN(l-1))
+			}
 			switch rng.IntN(9) {
 			case 0:
 				kind, id = "stale", c35ID(c35ISD, 1, max(1, l-1-rng.IntN(2)))
@@ -594,6 +654,6 @@ func checkC35(r *mon.Run) {
 	if r.Events("premise_started_trc_not_loaded") == 0 {
 		r.Class("premise/started-trcs-loaded")
 	}
-	r.RequireClasses("premise/started-trcs-loaded")
-	r.Require(int64(caseNo), 60, "enum_case", "history", "notify_advanced", "notify_unchanged", "load_future_ignored", "load_current_loaded")
+	r.RequireClasses("premise/started-trcs-loaded", "load/latest/serial>=10", "history/late-insert")
+	r.Require(int64(caseNo), 60, "enum_case", "history", "notify_advanced", "notify_unchanged", "load_future_ignored", "load_current_loaded", "latest_checked", "load_latest_checked")
 }
